@@ -269,9 +269,10 @@ def applyCmd (c : Config) (s : NodeState) (now : Nat) (e : Entry) : Option (Node
   | .version v =>
     if c.selfVer < v then none
     else some ({ s with enabledVer := v }, .none, [.versionChanged s.enabledVer v])
-  | .membership add n =>
-    let (s', o) := changeCluster s now add n
-    some (s', .none, o)
+  | .membership _ _ =>
+    -- since repair D6 a membership entry is carried out when it is appended (after a restart: when the
+    -- journal is read), applying it leaves the member set alone
+    some (s, .none, [])
   | .regular id raises =>
     let sm' := s.sm ++ [id]
     some ({ s with sm := sm' }, if raises then .raised id else .ok sm'.length, [.exec (s.lastApplied + 1) id])
